@@ -55,6 +55,10 @@ ASSUMPTIONS = [
     "max_redirects = 0 means *unlimited* in the code (`if max_redirects and redirects >= max_redirects`); the bound "
     "'at most max_redirects requests' is stated and checked for max_redirects >= 1 only",
     "the caller's Content-Length, when supplied, equals the body length",
+    "HEAD requests are generated without a (non-empty) body: the in-memory aiohttp *server* does not consume the body of a HEAD "
+    "request (it is parsed as the next request), so such requests cannot be observed faithfully",
+    "F18 (3xx without Location is the last element of its own history) is a genuine deviation of the unchanged code: the check "
+    "reports it under signature C17/history/self-in-history-no-location until it is fixed or listed in known_findings.json",
 ]
 
 ORIGINS = [("http", "a.test", 80), ("http", "a.test", 8080), ("https", "a.test", 443), ("http", "b.test", 80),
